@@ -9,6 +9,9 @@ import time
 
 VERIF = os.path.dirname(os.path.dirname(os.path.abspath(__file__)))
 KNOWN = os.path.join(VERIF, "known_findings.txt")
+# Runs against a scratch tree (seeded changes) write their replay and evidence files elsewhere, so that the
+# committed evidence always describes /repo itself.
+OUT = os.environ.get("VERIF_OUT") or VERIF
 
 ALL_SCHEMAS = ["1.6.0", "1.7.1", "1.9.1", "1.11.1", "1.13.0", "1.13.1", "1.13.2", "1.15.0",
                "1.17.0", "1.18.0 (Desktop)", "1.18.0 (OS)", "2.18.0", "2.20.1", "2.20.2",
@@ -136,7 +139,7 @@ class Ctx:
 
     # ---- finish
     def _write_replay(self, key, v):
-        d = os.path.join(VERIF, "replays", self.pid)
+        d = os.path.join(OUT, "replays", self.pid)
         os.makedirs(d, exist_ok=True)
         path = os.path.join(d, hashlib.sha256(key.encode()).hexdigest()[:12] + ".json")
         doc = {"property": self.pid, "key": key, "what": v["what"], "seed": self.seed,
@@ -185,11 +188,11 @@ class Ctx:
             "violations": len(unknown),
         }
         if not self.replay_only:
-            os.makedirs(os.path.join(VERIF, "evidence"), exist_ok=True)
-            tmp = os.path.join(VERIF, "evidence", self.pid + ".json.tmp")
+            os.makedirs(os.path.join(OUT, "evidence"), exist_ok=True)
+            tmp = os.path.join(OUT, "evidence", self.pid + ".json.tmp")
             with open(tmp, "w") as f:
                 json.dump(ev, f, indent=1, sort_keys=True, default=str)
-            os.replace(tmp, os.path.join(VERIF, "evidence", self.pid + ".json"))
+            os.replace(tmp, os.path.join(OUT, "evidence", self.pid + ".json"))
         for ln in lines:
             print(ln)
         summary = (f"[{self.pid}] tier={self.tier} seed={self.seed} evaluations={self.evaluations} "
